@@ -216,7 +216,7 @@ func sendModes(mode string) {
 		if len(seen) < len(accepted) {
 			kit.Count("best-effort-dropped")
 		}
-		kit.Observe("%s be wire=%d/%d", k.Name, len(seen), len(accepted))
+		kit.Observe("%s be", k.Name) // (how many best-effort messages reach the wire is schedule dependent)
 		kit.Must("Close", func() { _ = x.S.Close() })
 		return
 	}
